@@ -310,6 +310,10 @@ func runC10(r *core.Run) {
 	nestSub(r, "nesting/all+attr+autoid+align=attr", core.MustCfg("all+attr+autoid+align=attr"), core.Pick(r, 3, 4), func(s *core.Sub, cv *core.Conv, w []byte) {
 		c10Case(s, nn.get(cv), w)
 	})
+	nc := newC10Pool("all+attr+autoid+align=attr")
+	corpusSub(r, "structured-corpus/all+attr+autoid+align=attr", core.MustCfg("all+attr+autoid+align=attr"), nil, func(s *core.Sub, cv *core.Conv, w []byte) {
+		c10Case(s, nc.get(cv), w)
+	})
 }
 
 // runC10Channels: the three switches must mean the same however they are handed to the library. For every subset of
